@@ -113,6 +113,25 @@ OnSurfaceVertex(w, v) ==
              IN Neg(GCls(w, Half(lo))) # Neg(GCls(w, Half(hi2)))
 VerticesOnSurface(w, ts) == \A i \in 1..Len(ts) : \A j \in 1..3 : OnSurfaceVertex(w, ts[i][j])
 
+\* C06 "normals agree with the gradient", on class worlds: each vertex of a triangle sits on a lattice
+\* edge with a negative and a non-negative end; Dir(v) is the unit step from the negative to the other
+\* end (zero for a vertex snapped onto a corner).  The normal (solid -> void) must have a positive
+\* component along the sum of the three directions.
+DirOf(w, v) ==
+  IF IsCorner(v) THEN <<0, 0, 0>>
+  ELSE LET a == CHOOSE a \in 1..3 : v[a] % 2 # 0
+           lo == [v EXCEPT ![a] = v[a] - 1]
+           e == [i \in 1..3 |-> IF i = a THEN 1 ELSE 0]
+       IN IF Neg(GCls(w, Half(lo))) THEN e ELSE <<-e[1], -e[2], -e[3]>>
+Cross3(p, q) == <<p[2] * q[3] - p[3] * q[2], p[3] * q[1] - p[1] * q[3], p[1] * q[2] - p[2] * q[1]>>
+Sub3(p, q) == <<p[1] - q[1], p[2] - q[2], p[3] - q[3]>>
+Dot3(p, q) == p[1] * q[1] + p[2] * q[2] + p[3] * q[3]
+TriOriented(w, t) ==
+  LET n == Cross3(Sub3(t[2], t[1]), Sub3(t[3], t[1]))
+      d == Add3(Add3(DirOf(w, t[1]), DirOf(w, t[2])), DirOf(w, t[3]))
+  IN n = <<0, 0, 0>> \/ d = <<0, 0, 0>> \/ Dot3(n, d) > 0
+LocalOriented(w, ts) == \A i \in 1..Len(ts) : TriOriented(w, ts[i])
+
 \* triangles as a bag modulo rotation of the triple (winding preserved)
 MinIdx(t) == CHOOSE i \in 1..3 : \A j \in 1..3 : 
                \/ t[i][1] < t[j][1]
